@@ -1,7 +1,7 @@
 SPECIFICATION Spec
 CONSTANTS
   HayChars = {97, 98, 65}
-  HayMax = 5
+  HayMax = 4
 INVARIANTS OccInside FirstIsOcc PastEndFindsNothing
 CONSTRAINT Emit
 CHECK_DEADLOCK FALSE
